@@ -783,6 +783,46 @@ def fixed_cases(ctx, lean_batch):
         one_document(ctx, schema, holder, dump, OM.FIXED_SDL, 0, label, text, vs, None, lean_batch, "fixed", seeds=OM.FIXED_SEEDS)
 
 
+def edoc_tie(ctx, batch):
+    """The bridge theorems (Props/C05_bridge.lean, C05_overlap*.lean) speak about `eDoc s env d`, the Lean translation of the
+    VALIDATOR-side document `d`; the driver executes the executor-side JSON built by exec_common.doc_to_json. Both are sent:
+    the driver answers whether `eDoc` of the one IS the other (field locations apart) and evaluates the static document
+    checks of accepted_cannot_go_wrong_computable (`docChecksB`) on the validator-side document."""
+    from py_gql.lang import parse
+    from corr import C06_model as M
+    reqs, items = [], []
+    for dump, c, label in batch:
+        try:
+            vdoc = M.doc_to_model(parse(c.text))
+        except M.NotModelled:
+            ctx.stat("edoc:not-modelled")
+            continue
+        r = K.lean_request(dump, c)
+        reqs.append({"op": "edoc", "schema": r["schema"], "doc": r["doc"], "vars": r["vars"], "vdoc": vdoc})
+        items.append((c, label))
+    if not reqs:
+        return
+    for (c, label), a in zip(items, ctx.driver.ask(reqs)):
+        if "same" not in a:
+            ctx.fail("corr:driver-error:edoc", "driver could not answer", c.replay_data({"answer": a}), kind="correspondence")
+            continue
+        ctx.stat("edoc:same:%s" % a["same"])
+        if a["same"] is False:
+            ctx.fail("corr:eDoc-differs-from-executed-document:%s" % (label or K.features_sig(c.text)),
+                     "the translation eDoc of the validator-side document (what the soundness theorems speak about) is not the "
+                     "executor-side document the driver executes",
+                     c.replay_data({"label": label, "edoc": a.get("edoc"), "doc": a.get("doc")}), kind="correspondence")
+        # ids / aliases / names false on a PARSED document = bug of the translation or of the parser guarantee;
+        # meta / no_introspection false = property of the input (the theorem does not apply): counted
+        for k in ("ids", "aliases", "names"):
+            if a.get(k) is False:
+                ctx.fail("corr:doc-check-false:%s" % k, "static document check %s of accepted_cannot_go_wrong_computable is false on a parsed, "
+                         "validator-accepted document" % k, c.replay_data({"label": label}), kind="correspondence")
+        ctx.stat("edoc:doc-checks:%s" % a.get("doc_checks"))
+        if a.get("doc_checks") is False:
+            ctx.stat("edoc:theorem-not-applicable:%s" % ",".join(k for k in ("meta", "no_introspection") if a.get(k) is False))
+
+
 def flush_lean(ctx, batch):
     reqs = []
     for dump, c, label in batch:
@@ -791,6 +831,7 @@ def flush_lean(ctx, batch):
         r["valid"] = True
         reqs.append(r)
     answers = ctx.driver.ask(reqs)
+    edoc_tie(ctx, batch)
     for (dump, c, label), a in zip(batch, answers):
         ctx.stat("lean-compared")
         model = a.get("model")
